@@ -17,8 +17,8 @@ from .common import Harness, zbool, instrumented
 
 PROPERTY = 'C17'
 ROOT = '/xdvR'
-NAMES = ['a', 'a.b', 'a.b.c', 'a_x', 'a.b_y', 'z']
-BOUNDS = {'quick': 'skeleton of depth 3 under one sys.path entry (17 paths), queried names %r, hide_init / hide_main symbolic' % NAMES, 'thorough': 'same skeleton plus a second sys.path entry'}
+NAMES = ['a', 'a.b', 'a.b.c', 'a_x', 'a.b_y', 'z', 'q__init__', 'a.r__main__']
+BOUNDS = {'quick': 'skeleton of depth 3 under one sys.path entry (20 paths), queried names %r, hide_init / hide_main symbolic' % NAMES, 'thorough': 'same skeleton plus a second sys.path entry'}
 OUTSIDE = 'real os / file systems (symbolic table instead), editable installs and egg-links (glob -> nothing), extension modules (no file with an extension-module suffix exists), zip imports, sys.meta_path hooks'
 ASSUMPTIONS = ['glob finds no __editable__ finder / pth and no egg-link in the search path', 'no extension module files; realpath / abspath are the identity on the skeleton paths',
                'a path is a file or a directory, not both; a path that exists has a directory as parent']
@@ -30,6 +30,7 @@ def skeleton():
     for d in ('a', 'a/b', 'a/b/c'):
         out += [d, d + '.py', d + '/__init__.py', d + '/__main__.py']
     out += ['a_x.py', 'a_x', 'a/b_y.py', 'a/b_y', 'a/b_y/__init__.py', 'z.py']
+    out += ['q__init__.py', 'a/r__main__.py']      # plain modules whose file names merely END like the special files
     return out
 
 
